@@ -276,10 +276,10 @@ theorem skc_core (hG : ValidGroup G) {P : GrothPub} (hP : PubOk G P) (pi : List 
   have capos := pos_of_val_ne vca (n0c _ _)
   constructor
   · -- membership and ranges
-    simp only [skcRanges, testMembership, hP.st.grp, skcRespF, skcRespFD, Bool.and_eq_true,
-      decide_eq_true_eq]
-    refine ⟨⟨⟨⟨⟨⟨⟨cdpos, vcd.2.1⟩, capos, vca.2.1⟩, cDpos, vcD.2.1⟩, (mod_range hG _).2⟩, ?_⟩,
-      (mod_range hG _).2⟩, ?_⟩
+    simp only [skcRanges, testMembership_val hG hP _ hcg _ _ _ vcd, testMembership_val hG hP _ hcg _ _ _ vca,
+      testMembership_val hG hP _ hcg _ _ _ vcD, hP.st.grp, skcRespF, skcRespFD, Bool.and_eq_true,
+      decide_eq_true_eq, true_and]
+    refine ⟨⟨⟨(mod_range hG _).2, ?_⟩, (mod_range hG _).2⟩, ?_⟩
     · exact all_lt_of_mod hG _ _
     · exact all_lt_of_mod hG _ _
   · -- the equations
